@@ -23,7 +23,7 @@ import (
 
 func TestMain(m *testing.M) { harness.Main(m) }
 
-const rule = "C03: model types built with reflect.StructOf from the schemagen grammar (2-10 payload fields over all int/uint widths, floats, bool, string, []byte, time.Time, pointers to those, sql.Null*, scanner/valuer types Label/Point/Attrs, serializer json/gob/unixtime fields (json also over map[string]interface{}, []interface{}, interface{} with numbers), field types implementing SerializerInterface themselves (SerDoc with optional members, SerList), embedded / embeddedPrefix structs incl. pointer, anonymous, nested and twice-embedded ones, outer fields shadowing a field of an embedded struct; tags column (incl. column names spelled like another field's Go name, chains of those and case variants), default literal / expression / null, autoCreateTime/autoUpdateTime[:milli|nano] and by field name; eight primary-key modes) x 1-8 records of boundary-biased values x create path (value, slice, pointer slice, array, batches, map / []map with and without model) x key fill (auto, supplied, mixed with RETURNING, explicit-keys-first-then-generated) x RETURNING on/off x read paths (Find, First, Take into structs, pointers, maps, []map, by marker, key and inline key; plus one Find whose condition fails on a later row and must report the error); non-trivial = at least 3 columns, at least one pointer / nullable / serializer / custom / embedded column, at least one boundary value and, for slice-like paths, at least 2 records; distinct = schema + values + paths"
+const rule = "C03: model types built with reflect.StructOf from the schemagen grammar (2-10 payload fields over all int/uint widths, floats, bool, string, []byte, time.Time, pointers to those, sql.Null*, scanner/valuer types (string-, struct-, map-, slice-, byte-array-, int- and time-backed, one written through GormValue), named basic types, gorm.Model / gorm.DeletedAt, `-` fields, serializer json/gob/unixtime fields (json also over map[string]interface{}, []interface{}, interface{} with numbers), field types implementing SerializerInterface themselves (SerDoc with optional members, SerList), embedded / embeddedPrefix structs incl. pointer, anonymous, nested and twice-embedded ones, outer fields shadowing a field of an embedded struct; tags column (incl. column names spelled like another field's Go name, chains of those and case variants), default literal / expression / null, autoCreateTime/autoUpdateTime[:milli|nano] and by field name; eight primary-key modes) x 1-8 records of boundary-biased values x create path (value, slice, pointer slice, array, batches, map / []map with and without model) x key fill (auto, supplied, mixed with RETURNING, explicit-keys-first-then-generated) x handle (fresh chain, one Session handle, WithContext, inside Transaction) x Config (CreateBatchSize, SkipDefaultTransaction, PrepareStmt, QueryFields, DisableNestedTransaction, NamingStrategy.NoLowerCase) x RETURNING on/off (also explicit clause.Returning) x read paths (Find, First, Take into structs, pointers, maps, []map, by marker, key and inline key; plus one Find whose condition fails on a later row and must report the error); non-trivial = at least 3 columns, at least one pointer / nullable / serializer / custom / embedded column, at least one boundary value and, for slice-like paths, at least 2 records; distinct = schema + values + paths"
 
 // kindsForTier lets development widen the grammar kind by kind (VERIF_C03_KINDS=scalars|...); default all.
 func excluded(rt *rapid.T) map[string]bool {
@@ -301,8 +301,10 @@ func (c *caseT) classes() []string {
 		}
 	}
 	walk(c.spec, 0)
-	if len(c.m.Shadowed) > 0 {
-		set["tag:embedded-field-shadowed-by-outer-field"] = true
+	for _, l := range c.m.Shadowed {
+		if l.Spec.Shadowed {
+			set["tag:embedded-field-shadowed-by-outer-field"] = true
+		}
 	}
 	if exact, caseOnly := c.m.HasCrossName(); exact || caseOnly {
 		if exact {
